@@ -232,8 +232,12 @@ def run(pid: str, tier: str, seed: int, *, replay: dict | None = None) -> int:
         if pid == "C03" and replay is None:
             for sc, (_, info) in zip(scs, base):
                 steps = info["run_steps"] or 0
-                pts = list(range(1, steps + 1))
-                cap = {"quick": 90, "thorough": 100000}[tier]
+                # every loop step at (or within 3 steps of) which something observable happened, plus a
+                # sparse sample of the idle stretches in between
+                hot = {s + d for s in info["event_steps"] for d in (-3, -2, -1, 0, 1, 2, 3) if 1 <= s + d <= steps}
+                cold = [s for s in range(1, steps + 1) if s not in hot]
+                pts = sorted(hot | set(rng.sample(cold, min(len(cold), 25))))
+                cap = {"quick": 160, "thorough": 100000}[tier]
                 if len(pts) > cap:
                     pts = sorted(rng.sample(pts, cap))
                 for k in pts:
